@@ -85,18 +85,22 @@ CLAIMED = {
              T_REF, "DESIGN.md section 6 C20", "Known finding F7 (known_findings.json): true indegree 0 reported as 1, pinned by the repository's own test."),
 }
 CLAIMED["C16"] = c(
-    "Props/C16.v (SchedFacts*.v) on the coroutine model of the generator requests (Sched.v: one step = the code between two yields, with "
-    "the generator's local caches, traversal stacks of block addresses and node data read before a yield): a batch run alone equals the "
-    "request (batch_alone); for ANY number of crawl batches advanced by ANY schedule from any state related to the specification, the "
-    "invariants (well-formed tree, addresses, stub chains, Rcore) hold at every intermediate state (C16_invariant) and, once all are done, "
-    "the pages with crawled marks are those of the batches applied one after another, the out- and in-chains of every page are permutations "
-    "of the sequential ones, in = transpose of out (C16_schedule_independent); for a page query interleaved with batches every item "
-    "appended is, at that moment, a page under one of the query's prefixes (C16_sandwich_partial: soundness; completeness for pages "
-    "qualifying throughout is not proved, it is checked on the implementation). 'No request fails' and the stale-copy hazard are carried by "
-    "running the real generators, every loop iteration a yield point, under random and enumerated schedules against the coroutine model "
-    "(bytes compared), incl. rule installations against batches that touch the anchor node.",
-    "Coq proof: schedule independence of crawl batches by a per-step invariant with ghost link lists; schedule exploration of the real generators",
+    "Props/C16.v, C16b.v, C16c.v (SchedFacts*.v, SchedRefute.v) on the coroutine model of the generator requests (Sched.v: one step = the "
+    "code between two yields, with the generator's local caches, traversal stacks of block addresses and node data read before a yield; "
+    "five kinds: crawl batch, rule installation, page query, network query, page-link query): a batch run alone equals the request; for ANY "
+    "mix of these jobs advanced by ANY schedule from any state related to the specification, the invariants (well-formed tree, addresses, "
+    "stub chains, Rcore) hold at every intermediate state (C16_invariant_rules) and, once all are done, the pages with crawled marks are "
+    "those of the batches applied one after another, the out- and in-chains of every page are permutations of the sequential ones, in = "
+    "transpose of out (C16_schedule_independent_rules); the page query is sandwiched (C16_sandwich_partial: every item appended is, at that "
+    "moment, a page under one of its prefixes; C16_sandwich_complete: a page present at its first step and qualifying at the end is in the "
+    "answer). For the network query and the outbound/inbound clauses of the page-link query the clause 'no item that qualified at no moment' "
+    "is REFUTED (C16_network_upper_clause_refuted, C16_pagelinks_outbound_clause_refuted: witnesses replayed on /repo, findings F10, F11). "
+    "'No request fails', the stale-copy hazards and every sandwich clause are also checked by running the real generators, every loop "
+    "iteration a yield point, under random and enumerated schedules against the coroutine model (replies and bytes compared) and against "
+    "the uninterrupted query run at every moment of the schedule.",
+    "Coq proof: schedule independence by a per-step invariant with ghost link lists, query sandwich, refutation witnesses by vm_compute; "
+    "schedule exploration of the real generators",
     "DESIGN.md section 6 C16",
-    "Partial: cooperative single-threaded scheduling only (as the property states); the query sandwich is proved for soundness only; the rule-install and "
-    "query coroutines are in correspondence but only batches are covered by the independence theorem.")
+    "Known findings F10, F11 (known_findings.json). Partial: cooperative single-threaded scheduling only (as the property states); the lower "
+    "sandwich clause of the network and page-link queries is checked on the implementation, not proved.")
 PENDING = {}
